@@ -1,5 +1,5 @@
 import FiberModel.DriverUtil
-import FiberModel.C03.Known
+import FiberModel.C03.Spec
 /-
 Driver for C03. Case fields (after the id):
   cfg(3 bits)  toks(`;`-separated L<hex> | N<hex> | O<hex> | S | P)  vals(hexlist)  path(hex)  implObs
@@ -141,20 +141,21 @@ def handleCase (f : List String) : Except String Verdict := do
       | _, _ => false
     let spec := specViolation cfg p vals path io
     let applies := completenessApplies cfg p vals path
-    let known : Option String :=
-      if (spec == some "fill-matches" || spec == some "params-return-values") && Known.K1 cfg p vals
-      then some "K1" else none
+    -- the region of former known finding K1 (repaired in fiber): clean for the literals, not clean for
+    -- the literals minus their trailing slashes; no longer exempt, only counted
+    let fullConstRegion := applies && !cleanFillWith cmpOfConst (foldPat cfg p) (foldVals cfg vals)
     let greedyMid := (foldPat cfg p).zip ((foldPat cfg p).drop 1) |>.any fun (a, b) => a.isGreedy && !b.isParam
     let tags := [if Delimited p then "delimited" else "not-delimited",
                  if io.disp.ran == 1 then "ran" else "notran"] ++
                 (if applies then ["nt-complete"] else []) ++
                 (if applies && greedyMid then ["nt-greedy-mid"] else []) ++
-                (if applies && !greedyOnce cmpOfConst (foldPat cfg p) (foldVals cfg vals) then ["nt-greedy-iib"] else []) ++
+                (if applies && !greedyOnce (fun l => l) (foldPat cfg p) (foldVals cfg vals) then ["nt-greedy-iib"] else []) ++
+                (if fullConstRegion then ["nt-full-const"] else []) ++
                 (if !applies && io.disp.ran == 1 then ["nt-rpm-match"] else []) ++
                 (if structOK then [] else ["struct-mismatch"])
     pure { id := id, modelObs := if hypViolated cfg pattern then "hyp-violated:" ++ modelObs
                                  else if structOK then modelObs else "struct-mismatch:" ++ modelObs, implObs := impl,
-           spec := spec, known := known, tags := tags }
+           spec := spec, tags := tags }
   | _ => throw s!"outside-domain: expected 6 fields, got {f.length}"
 
 end C03Driver
